@@ -83,14 +83,35 @@ class CInterp(GInterp):
   If(g, new, old); a read under a path condition that contains g sees `new` directly (same value on that path).  Keeps
   loop temporaries (sol, id0, id1 of ray_box / ray_cylinder) concrete or small instead of nests of If / undef symbols."""
 
+  _raw = 0
+
   def lookup(self, fr, name):
     v = super().lookup(fr, name)
-    if core.is_sym(v) or isinstance(v, Vec):
-      v2 = _under(v, self.active(fr))
-      if isinstance(v, Vec) and name in fr.env and fr.env[name] is v:
-        return v  # in-place component stores must hit the environment's object
-      return v2
+    if self._raw == 0 and (core.is_sym(v) or isinstance(v, Vec)):
+      return _under(v, self.active(fr))  # a simplified copy: component stores go through assign / augassign below
     return v
+
+  def assign(self, fr, t, val, g):
+    import ast
+
+    if isinstance(t, (ast.Subscript, ast.Attribute)):
+      self._raw += 1  # in-place component / attribute stores must hit the environment's own object
+      try:
+        return super().assign(fr, t, val, g)
+      finally:
+        self._raw -= 1
+    return super().assign(fr, t, val, g)
+
+  def augassign(self, fr, s, g):
+    import ast
+
+    if isinstance(s.target, (ast.Subscript, ast.Attribute)):
+      self._raw += 1
+      try:
+        return super().augassign(fr, s, g)
+      finally:
+        self._raw -= 1
+    return super().augassign(fr, s, g)
 
 
 def run_wrapper(name, shapes, interp=None, divmode="poly", summaries=None, name_matvec=True):
